@@ -53,12 +53,109 @@ def _switch_guard(g, node):
     return False
 
 
+def _s6_to_s9(program, res):
+    sr = program.cls("data_schema", "SchemaRaises")
+    sb = program.cls("data_schema", "SchemaBase")
+    ca = sr.methods.get("check_args")
+    call = sr.methods.get("__call__")
+    cs = sr.methods.get("_check_spec")
+    if ca is None or call is None or cs is None:
+        raise AnalysisError("anchor vanished: SchemaRaises.check_args / __call__ / _check_spec")
+    res.analysed(ca, call, cs)
+    # ---- S6: a specification that may be absent (constructor default None, normaliser maps None to None) is not dereferenced unguarded
+    init = sb.methods.get("__init__")
+    optional_fields = set()
+    defaults = {}
+    a = init.node.args
+    pos = a.args[-len(a.defaults):] if a.defaults else []
+    for p_, d_ in list(zip(pos, a.defaults)) + list(zip(a.kwonlyargs, a.kw_defaults)):
+        if isinstance(d_, ast.Constant) and d_.value is None:
+            defaults[p_.arg] = True
+    for st in ast.walk(init.node):
+        if isinstance(st, ast.Assign) and isinstance(st.targets[0], ast.Attribute) and unparse(st.targets[0].value) == "self":
+            names = {n.id for n in ast.walk(st.value) if isinstance(n, ast.Name)}
+            guarded = any(isinstance(x, ast.IfExp) or isinstance(x, ast.BoolOp) for x in ast.walk(st.value))
+            if names & set(defaults) and not guarded:
+                optional_fields.add(st.targets[0].attr)
+    g = cfgmod.build(ca.node)
+    for f in sorted(optional_fields):
+        derefs = [n for n in ast.walk(ca.node) if isinstance(n, (ast.Attribute, ast.Subscript)) and isinstance(n.value, ast.Attribute)
+                  and unparse(n.value) == f"self.{f}"]
+        if not derefs:
+            continue
+        unguarded = []
+        for dn in derefs:
+            node = g.containing_node(dn)
+            gs = g.guards(node.id)
+            if not any(f"self.{f}" in unparse(b.cond) and "None" in unparse(b.cond) for b, _l in gs):
+                unguarded.append(dn)
+        if unguarded:
+            res.fail_at("C22-S6", ca, f"optional-spec-dereferenced:{f}",
+                        f"`{unparse(unguarded[0])}`: self.{f} is None when the decorator is given no such specification (its constructor default), e.g. "
+                        f"@SchemaRaises(return_spec=int): every call then raises AttributeError while checking is on — not a TypeError, and nothing is violated", unguarded[0])
+        else:
+            res.ok("C22-S6", f"check_args tolerates an absent {f}")
+    # ---- S7: arguments are matched to parameter names the way Python binds them
+    # the values handed to check_args are the bound arguments (a bind whose result is not used binds nothing)
+    bound_names = {st.targets[0].id for st in ast.walk(call.node) if isinstance(st, ast.Assign) and isinstance(st.targets[0], ast.Name)
+                   and isinstance(st.value, ast.Call) and isinstance(st.value.func, ast.Attribute) and st.value.func.attr in ("bind", "bind_partial")}
+    carriers = {st.targets[0].id for st in ast.walk(call.node) if isinstance(st, ast.Assign) and isinstance(st.targets[0], ast.Name)
+                and any(isinstance(a_, ast.Attribute) and a_.attr == "arguments" and isinstance(a_.value, ast.Name) and a_.value.id in bound_names for a_ in ast.walk(st.value))}
+    binds = False
+    for c in ast.walk(call.node):
+        if isinstance(c, ast.Call) and isinstance(c.func, ast.Attribute) and c.func.attr == "check_args":
+            for kw in c.keywords:
+                if kw.arg in ("kwargs", "args"):
+                    names = {n.id for n in ast.walk(kw.value) if isinstance(n, ast.Name)}
+                    if names & carriers or any(isinstance(a_, ast.Attribute) and a_.attr == "arguments" for a_ in ast.walk(kw.value)):
+                        binds = True
+    by_index = [n for n in ast.walk(ca.node) if isinstance(n, ast.Subscript) and isinstance(n.value, ast.Name) and n.value.id == "arg_names"
+                and isinstance(n.slice, ast.Name)]
+    filters_kinds = ".kind" in unparse(call.node)
+    if binds or (by_index and filters_kinds) or not by_index:
+        res.ok("C22-S7", "positional arguments are matched to parameter names by the signature's own binding (or parameter kinds are filtered)")
+    else:
+        res.fail_at("C22-S7", ca, "positional-binding-by-index",
+                    f"`{unparse(by_index[0])}` pairs the i-th positional argument with the i-th parameter *name of any kind*, and defaults are never applied: for def g(a, *rest, k) "
+                    f"the call g(1, 2, 3, k='bad') checks 3 under the name k and accepts the bad k (g(1, 2) raises IndexError), and for def f(x, scale=2) with both declared, "
+                    f"f(3) is reported 'expected arg scale missing'", by_index[0])
+    # ---- S8: the null test is a scalar truth value
+    isn = program.func("data_schema", "_is_null")
+    res.analysed(isn)
+    rets = [r.value for r in ast.walk(isn.node) if isinstance(r, ast.Return) and r.value is not None]
+    raw = [r for r in rets if isinstance(r, ast.Call) and (dotted_name(r.func) or "").split(".")[-1] in ("isnull", "isna")]
+    if raw:
+        res.fail_at("C22-S8", isn, "null-test-not-scalar",
+                    f"_is_null returns `{unparse(raw[0])}` as it is: for a list, array, Series or data-frame cell that is an array, and `if not _is_null(v)` raises ValueError "
+                    f"(truth value of an array is ambiguous) — columns of list cells and nested column specifications can never be checked, and a [None] cell counts as null", raw[0])
+    else:
+        res.ok("C22-S8", "_is_null reduces the result of the element-wise null test to one truth value")
+    # ---- S9: nulls carry no type, also outside data frames
+    g2 = cfgmod.build(cs.node)
+    type_branches = [n for n in g2.stmt_nodes(("test",)) if "isinstance(expected_type, type)" in unparse(n.cond) or "isinstance(expected_type, set)" in unparse(n.cond)]
+    if not type_branches:
+        raise AnalysisError("_check_spec: the branches for a single type / a set of types were not found")
+    null_guard = [n for n in g2.stmt_nodes(("test",)) if "_is_null" in unparse(n.cond) and "observed_value" in unparse(n.cond)]
+    covered = bool(null_guard) and all(any(g2.dominates(ng.id, tb.id) or tb.id == ng.id or ng.id in g2.reachable_from(tb.id) for ng in null_guard) for tb in type_branches)
+    if covered:
+        res.ok("C22-S9", "_check_spec exempts a null value from type and type-set specifications")
+    else:
+        res.fail_at("C22-S9", cs, "null-argument-type-checked",
+                    "_check_spec applies isinstance to a null argument / return value: with spec int, f(None), f(float('nan')) and a function returning None raise TypeError "
+                    "although 'a non-null value' is what has to match (null *cells* are exempt), and {int, None} is normalised to {int}, so 'optional int' refuses None")
+
+
 def run(program, res, tier):
     res.rule("C22-S1", "the check switch dominates every schema raise; TypeError is what is raised")
     res.rule("C22-S2", "wrapped function's result is returned unchanged, checks before and after")
     res.rule("C22-S3", "normalised specifications reach the returned value (no dead store)")
     res.rule("C22-S4", "null cells are never type-checked")
     res.rule("C22-S5", "missing arguments and columns are reported")
+    res.rule("C22-S6", "an absent specification is not dereferenced")
+    res.rule("C22-S7", "arguments are bound to parameter names as Python binds them, defaults included")
+    res.rule("C22-S8", "the null test yields one truth value for any cell")
+    res.rule("C22-S9", "null arguments and return values are exempt like null cells")
+    _s6_to_s9(program, res)
     sr = program.cls("data_schema", "SchemaRaises")
     # ---- S1
     for mname in ("check_args", "check_return"):
